@@ -216,6 +216,8 @@ def gen_det(ctx, st):
         return None
     full = L * (N // L)
     want = rng.choice(["early", "final", "final", "mid", "never", "grid"])
+    if full < N and L <= N and rng.random() < 0.45:
+        want = "final"
     if want == "final" and full < N and L <= N:
         alpha = pick_alpha(rng, [h], "target", full, N)
     elif want == "early":
@@ -234,12 +236,37 @@ def gen_det(ctx, st):
     if how == "reused":       # the same instance, used before on other data
         call(lambda: tst.sample_size(fl(xs[::-1]), alpha=0.3))
     arg = [float(v) for v in xs] if how == "list" else fl(xs)
-    out = call(lambda: int(tst.sample_size(arg, alpha=alpha)))
+    pf = rng.random() < 0.3        # prefix / quantile / seed are documented as unused when reps is None
+    if pf:
+        out = call(lambda: int(tst.sample_size(arg, alpha=alpha, reps=None, prefix=True, quantile=rng.random(), seed=rng.randint(0, 99))))
+    else:
+        out = call(lambda: int(tst.sample_size(arg, alpha=alpha)))
     exp = first_cross(h, alpha, N)
     where = ("never" if not any(p <= alpha for p in h) else
              "first copy" if exp <= min(L, N) else "final partial copy" if exp > full else "later full copy")
-    return {"cfg": cfg, "alpha": C.frac(alpha), "xs": xs, "reps": None, "prefix": False, "q": F(1, 2), "draws": [],
+    return {"cfg": cfg, "alpha": C.frac(alpha), "xs": xs, "reps": None, "prefix": pf, "q": F(1, 2), "draws": [],
             "out": out, "expected": exp, "where": where, "divides": N % L == 0, "how": how}
+
+
+def gen_exact(ctx, st):
+    """risk limit EQUAL to an attained p-value (the property says `at most`): Kaplan-Markov with g = 0, t = 1/2 and data in
+    {1/4, 1/2, 1}, so every history entry is a power of two, exact in doubles and in Q"""
+    rng = ctx.rng
+    N = rng.randint(3, 30)
+    L = rng.randint(2, min(N, 7))
+    xs = [rng.choice([F(1), F(1), F(1, 2), F(1, 4)]) for _ in range(L)]
+    cfg = {"kind": "km", "N": N, "t": F(1, 2), "u": F(1), "ro": True, "p": {"g": F(0)}}
+    pop = np.tile(fl(xs), math.ceil(N / L))[0:N]
+    h = hist_impl(nnm.build(cfg), pop)
+    alpha = rng.choice(h)
+    if not (0 < alpha < 1):
+        return None
+    out = call(lambda: int(nnm.build(cfg).sample_size(fl(xs), alpha=alpha)))
+    exp = first_cross(h, alpha, N)
+    full = L * (N // L)
+    where = "first copy" if exp <= L else "final partial copy" if exp > full else "later full copy"
+    return {"cfg": cfg, "alpha": C.frac(alpha), "xs": xs, "reps": None, "prefix": False, "q": F(1, 2), "draws": [],
+            "out": out, "expected": exp, "where": where + " (p == alpha exactly)", "divides": N % L == 0, "how": "array"}
 
 
 def replay_draws(xs, seed, reps, ran_len):
@@ -452,8 +479,8 @@ def gen_spec(rng, typ=None, N=None, clean=False):
         set_u = m is not None and m > 0 and (clean or rng.random() < 0.75)   # test.u set as set_margin_from_cvrs does
         u = C.frac(2 / (2 - float(m) / float(ub))) if set_u else F(1)
     kind = rng.choice(nnm.KINDS)
-    if N > 20 and kind in HEAVY:
-        kind = "alpha_fixed"
+    if N > 14 and kind in HEAVY:
+        kind = rng.choice(["alpha_fixed", "bet_fixed", "alpha_optcomp", "kk"])
     cfg = cfg_for(rng, N, F(1, 2), u, kind)
     tally = None
     if typ == "POLLING":
@@ -483,21 +510,40 @@ def build_asn(spec, alpha, con=None):
     return a
 
 
-def doc_population(spec, r1, r2):
+def tie_risk(pop_exact, cfg):
+    """True when, in exact arithmetic, a running total of the population equals the null total N t (so the null
+    conditional mean is exactly 0 there, or the grand total sits exactly on the `Stot > N t` threshold): with
+    non-dyadic values the doubles land on one side of it.  Such cases are regenerated and counted."""
+    N, t = cfg["N"], cfg["t"]
+    if all(F(x).denominator & (F(x).denominator - 1) == 0 for x in pop_exact):
+        return False                      # dyadic values: the doubles are exact, no risk
+    g = cfg["p"].get("g", F(0)) if cfg["kind"] == "kk" else F(0)
+    S = F(0)
+    for j, x in enumerate(pop_exact[:N], 1):
+        S += F(x)
+        if S + j * g == N * (t + g):
+            return True
+    return False
+
+
+def doc_population(spec, r1, r2, exact=False):
     """the hypothetical population the documentation describes, built here without the implementation.
-    Returns a list of floats, or None when the documented construction is undefined (an exception is expected)."""
-    N, ub, m = spec["N"], float(spec["ub"]), spec["m"]
+    Returns a list of floats, or None when the documented construction is undefined (an exception is expected).
+    exact=True: the same layout in exact fractions (only used to detect exact ties, see tie_risk)."""
+    N, ub, m = spec["N"], (spec["ub"] if exact else float(spec["ub"])), spec["m"]
     if m is None or m <= 0:
         return None
-    v = float(m)
+    v = F(m) if exact else float(m)
     if spec["typ"] == "POLLING":
         if spec["irv"] or not isinstance(spec["tally"], tuple):
             return None
         n0, nb = spec["tally"]
+        if exact:
+            return interleave_doc(n0, N - n0 - nb, nb, F(0), F(1, 2), F(ub))
         return [float(z) for z in interleave_doc(n0, N - n0 - nb, nb, 0.0, 0.5, ub)]
     big = (1 - 0 / ub) / (2 - v / ub)            # overstatement assorter of an error-free card
-    small = (1 - 0.5 / ub) / (2 - v / ub)        # one-vote overstatement
-    r1e = float(r1) if r1 is not None else (1 - v) / 2
+    small = (1 - (F(1, 2) if exact else 0.5) / ub) / (2 - v / ub)        # one-vote overstatement
+    r1e = float(r1) if r1 is not None else (1 - float(v)) / 2
     r2e = float(r2) if r2 is not None else 0.0
     k1 = int(1 / r1e) if r1e else None
     k2 = int(1 / r2e) if r2e else None
@@ -506,7 +552,7 @@ def doc_population(spec, r1, r2):
     x = []
     for i in range(N):
         if k2 and k2 > 0 and i % k2 == 0:
-            x.append(0.0)                        # two-vote overstatement
+            x.append(F(0) if exact else 0.0)     # two-vote overstatement
         elif k1 and k1 > 0 and i % k1 == 0:
             x.append(small)
         else:
@@ -554,6 +600,9 @@ def run_one_asn(ctx, res, st, spec, r1, r2, data=None, sim=None):
     if data is not None and (spec["m"] is None or spec["m"] <= 0):
         doc = None
     alpha, exp, reps, prefix, q, seed, draws = None, None, None, rng.random() < 0.3, 0.5, 1234567890, []
+    if doc is not None and data is None and tie_risk(doc_population(spec, r1m, r2m, exact=True), spec["cfg"]):
+        st["exact tie of a running total with N t (regenerated)"] = st.get("exact tie of a running total with N t (regenerated)", 0) + 1
+        return None
     if doc is not None:
         try:
             tst = nnm.build(spec["cfg"])
@@ -621,7 +670,7 @@ def run_one_asn(ctx, res, st, spec, r1, r2, data=None, sim=None):
 def run_assertions(ctx, res, st):
     rng = ctx.rng
     cases = []
-    n = ctx.n(330, 4000)
+    n = ctx.n(290, 4000)
     tries = 0
     while len(cases) < n and tries < 4 * n:
         tries += 1
@@ -686,6 +735,9 @@ def gen_contest(ctx, res, st, with_data):
     docs = [[float(v) for v in d] if d is not None else doc_population(s, r1, r2) for s, d in zip(specs, datas)]
     if any(d is None for d in docs):
         return None
+    if any(d is None and tie_risk(doc_population(s, r1, r2, exact=True), s["cfg"]) for s, d in zip(specs, datas)):
+        st["exact tie of a running total with N t (regenerated)"] = st.get("exact tie of a running total with N t (regenerated)", 0) + 1
+        return None
     try:
         hs = [hist_impl(nnm.build(s["cfg"]), np.tile(np.array(d), math.ceil(N / len(d)))[0:N]) for s, d in zip(specs, docs)]
     except Exception:  # noqa
@@ -737,7 +789,7 @@ def gen_contest(ctx, res, st, with_data):
 
 def run_contests(ctx, res, st):
     cases = []
-    n = ctx.n(70, 800)
+    n = ctx.n(56, 800)
     tries = 0
     while len(cases) < n and tries < 5 * n:
         tries += 1
@@ -779,6 +831,9 @@ def gen_audit(ctx, res, st):
         datas = [None if style else nonconstant_xs(rng, s["cfg"], rng.randint(2, min(N, 8))) for s in specs]
         docs = [[float(v) for v in d] if d is not None else doc_population(s, r1, r2) for s, d in zip(specs, datas)]
         if any(d is None for d in docs):
+            return None
+        if any(d is None and tie_risk(doc_population(s, r1, r2, exact=True), s["cfg"]) for s, d in zip(specs, datas)):
+            st["exact tie of a running total with N t (regenerated)"] = st.get("exact tie of a running total with N t (regenerated)", 0) + 1
             return None
         try:
             hs = [hist_impl(nnm.build(s["cfg"]), np.tile(np.array(d), math.ceil(N / len(d)))[0:N]) for s, d in zip(specs, docs)]
@@ -887,6 +942,12 @@ def gen_raire(ctx, res, st):
             return None
         doc = [0.0 if (k2 and i % k2 == 0) else small if (k1 and i % k1 == 0) else big for i in range(N)]
         tst = NonnegMean(test=NonnegMean.alpha_mart, estim=NonnegMean.optimal_comparison, N=N, u=u, eta=float(mean))
+    if not polling:
+        bq, sq = 1 / (2 - (2 * mean - 1) / ub), F(1, 2) / (2 - (2 * mean - 1) / ub)
+        exact_doc = [F(0) if (k2 and i % k2 == 0) else sq if (k1 and i % k1 == 0) else bq for i in range(N)]
+        if tie_risk(exact_doc, {"N": N, "t": F(1, 2), "kind": "alpha_optcomp", "p": {}}):
+            st["exact tie of a running total with N t (regenerated)"] = st.get("exact tie of a running total with N t (regenerated)", 0) + 1
+            return None
     try:
         h = hist_impl(tst, np.tile(np.array(doc), math.ceil(N / len(doc)))[0:N])
     except Exception:  # noqa
@@ -929,15 +990,17 @@ def run_raire(ctx, res, st):
 
 # ---------------------------------------------------------------------------------------------- entry point
 def run(ctx, res):
+    import time
     st = {}
     res.stats = st
+    t0 = time.time()
     # ---- NonnegMean.sample_size
     det, sims = [], []
-    n_det, n_sim = ctx.n(380, 5000), ctx.n(130, 1500)
+    n_det, n_sim = ctx.n(360, 5000), ctx.n(120, 1500)
     tries = 0
     while len(det) < n_det and tries < 4 * n_det:
         tries += 1
-        c = gen_det(ctx, st)
+        c = gen_exact(ctx, st) if ctx.rng.random() < 0.08 else gen_det(ctx, st)
         if c is None:
             continue
         det.append(c)
@@ -968,13 +1031,19 @@ def run(ctx, res):
     cr = C.run_corr(ctx.pid, "ss", IMPORTS, "ss_case", det + sims, ss_lit, "agree_ss", shard=24, show="show_ss")
     res.corr.append(("NonnegMean.sample_size (deterministic and simulation branch) vs SampleSize.ss", cr, ss_json))
     res.evaluations += len(det) + len(sims)
-
-    run_interleave(ctx, res)
-    run_overstatement(ctx, res)
+    secs = {"sample_size": round(time.time() - t0, 1)}
+    for name, f in (("interleave", run_interleave), ("overstatement", run_overstatement)):
+        t1 = time.time()
+        f(ctx, res)
+        secs[name] = round(time.time() - t1, 1)
+    t1 = time.time()
     acs = run_assertions(ctx, res, st)
-    run_contests(ctx, res, st)
-    run_audits(ctx, res, st)
-    run_raire(ctx, res, st)
+    secs["assertions"] = round(time.time() - t1, 1)
+    for name, f in (("contests", run_contests), ("audits", run_audits), ("raire", run_raire)):
+        t1 = time.time()
+        f(ctx, res, st)
+        secs[name] = round(time.time() - t1, 1)
+    st["seconds per part"] = secs
 
     res.exhaustive = False
     res.rule = ("NonnegMean.sample_size: all nine test kinds (harness.nnm.gen_cfg), N <= 40, pilot data from the nnm generators made "
